@@ -33,6 +33,24 @@ CHECKS={
  "C11":("E1a+E1x",MC,"any-time graph of two Sets on a connected target whose device answers an apply with each of the 16 non-OK gRPC codes (real statuses through the repository's client wrapper), bursts 1..2 (3 thorough), either transaction, with a crash and with SERIALIZABLE isolation; invariants on every state and oracles on the terminal states (nothing can act any more)",
         "device is a simulated gNMI server over bufconn; scripted answers",
         "explicit-state model checking of the implementation with fault enumeration + exact-schedule confirmation"),
+ "C04":("E1a+E1x",MC,"any-time graph of Sets and rollbacks on a target whose connection is lost / re-established, whose device restarts empty or is unavailable for a request, anywhere in the history (budgeted); on every terminal state (nothing can act any more) with the target connected, mastered and SYNCHRONIZED the device content must equal the reference built from the transactions whose apply did not fail, in log order; candidates confirmed under exact queues",
+        "fault budget 1-3 per scenario; one target; simulated device with element-aware subtree delete and master arbitration",
+        "explicit-state model checking of the implementation with fault enumeration + exact-schedule confirmation"),
+ "C06":("E3h",EX,"every history of 1..2 (thorough 3) Set requests over the C03 alphabet plus a model-rejected Set, devices connected, run to idle through the real handlers and controllers; then rollback of the latest change (Get and device = state before the change), of that rollback, of the predecessor, again of the first, of a non-latest change, of a failed change, of index 0 and of a missing index",
+        "default oldest-first schedule; rollback under crashes and interleavings is explored by the C07/C05/C02 scenarios",
+        "bounded-exhaustive history enumeration on the real code against a reference (snapshot before the change)"),
+ "C07":("E1a+E1w+E1x",MC,"any-time graph with crash@k for every effectful step and every k (process dies before its (k+1)-th external effect, restarts, records replayed), differential oracle on the terminal states (outcome with a crash must be an outcome without), merge monitor (no change merged twice or out of order), plus a work-set exploration where only the tokens replayed by the real watchers survive a restart; candidates confirmed under exact queues",
+        "single crash (pairs in thorough); 1-3 transactions, 1-2 targets",
+        "explicit-state model checking of the implementation with crash-point enumeration + exact-schedule confirmation"),
+ "C10":("E1a+E1x",MC,"any-time graph with all six controllers under connection loss / re-establishment, device restart and transient unavailability (budgeted, anywhere); monitors on every transition: term never decreases, a new master gets a larger term, every southbound write carries election id = current term and travels over the master's connection, no change is sent before the re-sync of that term, a re-sync re-sends every applied value; CONTROLS relation <=> connection on terminal states",
+        "a single onos-config node (competing connections arise from drop + reconnect before the connection controller reconciles); fault budget 1-3",
+        "explicit-state model checking of the implementation with fault enumeration and transition monitors + exact-schedule confirmation"),
+ "C13":("E3h",EX,"every Set request of 0..2 (thorough 3) operations over 17 valid and invalid operations x per-path target x prefix target x prefix elems x size limit, plus a malformed extension, through the real handler; refusal => error, log and configurations unchanged; acceptance => the logged change map equals the reference resolution of targets and paths",
+        "reference classification is an independent reading of model mini; ~20 000 requests (quick)",
+        "bounded-exhaustive input enumeration on the real handler against a reference classification"),
+ "C14":("E3h",EX,"every group list of length 0..2 (thorough 3) over 8 group names incl. empty, substrings, superstrings and case variants x identity metadata absent / with name / without name x ADMINGROUPS settings through the real Set handler (permitted iff a caller group equals an admin group; refusal leaves the log unchanged); target listing for every list x OIDC on/off x ROC-admin override unset/empty/custom x encodings",
+        "identity metadata is injected as gRPC incoming metadata, as the onos-lib-go interceptor does",
+        "bounded-exhaustive input enumeration on the real handler against a reference predicate"),
 }
 NOT_YET="check not built yet in this session (planned, see DESIGN.md §4); not claimed until its check exists and passes"
 allp=[json.loads(l)['id'] for l in open('/verif/properties.jsonl')]
